@@ -729,6 +729,8 @@ structure Facts where
   flushesAtCountBound : Tri
   /-- readNextBlock takes a zero-filled tail for the end of the data -/
   zeroTailIsEOF : Tri
+  /-- runCompactionLocked closes the writer first whenever one is open (`cCompactLocked`: close, then compact) -/
+  lockedClosesWriterFirst : Tri
   /-- the reader assumptions of the model (established by C04): a payload that is not the one
       written fails the checksum; the decoded length and the entry count are checked -/
   validatesCrc : Tri
@@ -751,7 +753,7 @@ def modelApplies (f : Facts) : Bool :=
   f.loadCleansTemp != .unknown && f.closeFsyncs != .unknown &&
   f.shortHeaderIsEOF != .unknown && f.tornDataIsEOF != .unknown && f.truncatesTornTail != .unknown &&
   f.flushesAtCountBound.isYes && f.validatesCrc.isYes && f.validatesULen.isYes && f.parseConsumesAll.isYes &&
-  f.zeroTailIsEOF != .unknown
+  f.zeroTailIsEOF != .unknown && f.lockedClosesWriterFirst.isYes
 
 def findings (f : Facts) : List String :=
   (if EP.rmFirst (cfgOf f) .locked then [] else ["C03-locked-stale-temp"]) ++
